@@ -2,7 +2,7 @@
    driver) -> one output line.  All canonical printing is done here, in Coq, so that the OCaml
    side is a trivial read/print loop. *)
 From VF Require Import Base.Prelude Model.Reader Model.InfoModelDefs.
-From VF Require Import Base.IPText Model.Layout Model.JsonPieces Model.Nf5 Model.Flow Model.Cache Model.Ipfix Model.Nf9 Model.MarshalFlow.
+From VF Require Import Base.IPText Model.Layout Model.JsonPieces Model.Nf5 Model.Flow Model.Cache Model.Ipfix Model.Nf9 Model.MarshalFlow Base.Json Model.Packet Model.Sflow.
 From VF Require Gen.InfoModel Gen.Layouts Gen.JsonPieces.
 
 Inductive tok := TBytes (b : bytes) | TInt (z : Z) | TSym (s : bytes).
@@ -179,6 +179,31 @@ Fixpoint run_nf9_history {C} (ops : cache_ops C) (c : C) (args : list tok) : lis
 Definition cmd_nf9h (args : list tok) : bytes := intercalate hist_sep (run_nf9_history cc_ops empty_ccache args).
 Definition cmd_nf9h_abs (args : list tok) : bytes := intercalate hist_sep (run_nf9_history am_ops [] args).
 
+(* ---------- sFlow (C07, C18, C01, C02) ---------- *)
+Definition g_sf_decode :=
+  sf_decode Gen.Layouts.sf_flow_sample_layout Gen.Layouts.sf_counter_sample_layout Gen.Layouts.sf_ext_switch_layout
+            Gen.Layouts.sf_generic_layout Gen.Layouts.sf_ethernet_layout Gen.Layouts.sf_tokenring_layout
+            Gen.Layouts.sf_vg_layout Gen.Layouts.sf_vlan_layout Gen.Layouts.sf_processor_layout
+            Gen.Layouts.sf_flow_sample_fields Gen.Layouts.sf_counter_sample_fields Gen.Layouts.sf_ext_switch_fields
+            Gen.Layouts.sf_generic_fields Gen.Layouts.sf_ethernet_fields Gen.Layouts.sf_tokenring_fields
+            Gen.Layouts.sf_vg_fields Gen.Layouts.sf_vlan_fields Gen.Layouts.sf_processor_fields.
+
+(* sflow <filter type>... <payload>  ->  NONE (nothing published) | the published JSON document (ColTime 0) *)
+Fixpoint sflow_args (args : list tok) (filter : list Z) : bytes :=
+  match args with
+  | TInt z :: rest => sflow_args rest (filter ++ [z])
+  | TBytes p :: _ =>
+      match g_sf_decode filter p with
+      | Ok None => s2l "NONE"
+      | Ok (Some j) => render j
+      | Err _ => s2l "ERR?"
+      | Panic => s2l "PANIC"
+      | Hang => s2l "HANG"
+      end
+  | _ => s2l "BADARGS"
+  end.
+Definition cmd_sflow (args : list tok) : bytes := sflow_args args [].
+
 Definition dispatch (cmd : bytes) (args : list tok) : bytes :=
   if list_eqb cmd (s2l "reader") then cmd_reader args
   else if list_eqb cmd (s2l "infomodel") then cmd_infomodel args
@@ -186,5 +211,6 @@ Definition dispatch (cmd : bytes) (args : list tok) : bytes :=
   else if list_eqb cmd (s2l "ipfixh") then cmd_ipfixh args
   else if list_eqb cmd (s2l "ipfixh-abs") then cmd_ipfixh_abs args
   else if list_eqb cmd (s2l "nf9h") then cmd_nf9h args
+  else if list_eqb cmd (s2l "sflow") then cmd_sflow args
   else if list_eqb cmd (s2l "nf9h-abs") then cmd_nf9h_abs args
   else s2l "UNKNOWN-COMMAND".
